@@ -2,10 +2,11 @@
 # MANIFEST.setup_cmd: build the framework from files on disk only (offline).
 set -e
 cd "$(dirname "$0")"
+HERE="$(pwd)"
 export CARGO_NET_OFFLINE=true
 mkdir -p .build evidence replays
 python3 translate/translate.py "${VERIF_REPO:-/repo}" lean/VpnCloud/Generated
 (cd lean && lake build VpnCloud vpmodel)
 (cd "${VERIF_REPO:-/repo}" && RUSTFLAGS='--cfg dswd_vpncloud_verif -A unused -A unexpected_cfgs' \
-  VPNCLOUD_VERIF_DRIVER_DIR=/verif/harness CARGO_TARGET_DIR=/verif/.build/target cargo build --offline)
+  VPNCLOUD_VERIF_DRIVER_DIR="$HERE/harness" CARGO_TARGET_DIR="$HERE/.build/target" cargo build --offline)
 echo setup done
